@@ -182,6 +182,7 @@ func main() {
 	worker := flag.String("worker", "", "internal: spec list file")
 	list := flag.Bool("list", false, "print the scenario specs and exit")
 	one := flag.String("one", "", "run a single spec given as JSON in this process (debugging)")
+	racepass := flag.Int("racepass", 0, "free-running pass: run every scenario body this many times outside the scheduler (build with -race)")
 	flag.Parse()
 	runtime.GOMAXPROCS(1)
 	debug.SetGCPercent(400) // executions allocate the library's 64 KiB buffers afresh: fewer collections, memory stays mapped // the scheduler hands a baton around; more Ps only add contention
@@ -219,6 +220,35 @@ func main() {
 		for _, s := range specs {
 			fmt.Println(s)
 		}
+		return
+	}
+	if *racepass > 0 {
+		runtime.GOMAXPROCS(8)
+		n, skipped := 0, 0
+		for _, sp := range specs {
+			if d.Build == nil {
+				continue
+			}
+			sc := d.Build(sp, ev.NewPart(*prop, *part, *tier))
+			if sc == nil {
+				continue
+			}
+			for r := 0; r < *racepass; r++ {
+				done := make(chan struct{})
+				go func() {
+					defer func() { recover(); close(done) }()
+					sc.Body() // pass-through mode: real goroutines, channels and locks
+				}()
+				select {
+				case <-done:
+					n++
+				case <-time.After(5 * time.Second):
+					skipped++ // a body that blocks when running free (known deadlocks) is abandoned
+					r = *racepass
+				}
+			}
+		}
+		fmt.Printf("racepass %s/%s: %d free-running executions of %d scenarios, %d abandoned\n", *prop, *part, n, len(specs), skipped)
 		return
 	}
 	total := ev.NewPart(*prop, *part, *tier)
